@@ -49,5 +49,20 @@ def main():
     need(ast.unparse(t2) == ast.unparse(t1), 'alpha-renaming: locals aligned with the reference by binding signature')
     need(len(canon.reference()) >= 35, 'spec/locals.json present: %d modules' % len(canon.reference()))
     need(len(neutral.KINDS) >= 9, 'neutral variant kinds: %d' % len(neutral.KINDS))
+    # front-end part 2 fixtures (sa/inline.py)
+    from . import inline
+    h = ast.parse("class K:\n    def _pos(self, n):\n        return self.base + n * self.size\n    def get(self, n):\n        return parse(self.s, self._pos(n))\n")
+    n_inl, names = inline.inline_new_helpers(h, {'K.get'})
+    need(n_inl == 1 and 'parse(self.s, self.base + n * self.size)' in ast.unparse(h) and '_pos' not in ast.unparse(h), 'new helper expanded at its call site and dropped')
+    h2 = ast.parse("class K:\n    def _pos(self, n):\n        return self.base + n * self.size\n    def get(self, n):\n        return parse(self.s, self._pos(n))\n")
+    n_inl2, _ = inline.inline_new_helpers(h2, {'K.get', 'K._pos'})
+    need(n_inl2 == 0, 'a helper the reference tree knows is left alone')
+    fn = ast.parse("def f(a, s):\n    end = a + s.size\n    total = end * 2\n    return total\n").body[0]
+    need(inline.inline_temps(fn, {'end'}) == ['end'] and 'total = (a + s.size) * 2' in ast.unparse(fn), 'new local replaced by its definition')
+    fn = ast.parse("def f(a, s):\n    end = a + s.size\n    a = 0\n    return end + a\n").body[0]
+    need(inline.inline_temps(fn, {'end'}) == [], 'not when an operand is rebound in between')
+    pv = ast.parse("def g(c, n):\n    size = n\n    if c:\n        size //= 2\n    return size\n").body[0]
+    vals = sorted(expr.path_value(p, p.end[1]) for p in paths.func_paths(pv))
+    need(vals == ['floordiv(n,2)', 'n'], 'path-sensitive values: %s' % vals)
     print('SELF-CHECK ' + ('OK' if ok else 'FAILED'))
     return 0 if ok else 2
